@@ -36,7 +36,9 @@ func newWSHandler(host string, dial dialFunc, conn gkm.Gauge) http.Handler {
 			return
 		}
 
-		in, _, err := hj.Hijack()
+		// the buffered reader may hold data which the client
+		// has sent right after the request, e.g. in the same packet.
+		in, inbuf, err := hj.Hijack()
 		if err != nil {
 			log.Printf("[ERROR] Hijack error for %s. %s", r.URL, err)
 			http.Error(w, "hijack error", http.StatusInternalServerError)
@@ -99,7 +101,7 @@ func newWSHandler(host string, dial dialFunc, conn gkm.Gauge) http.Handler {
 			errc <- err
 		}
 
-		go cp(out, in)
+		go cp(out, inbuf.Reader)
 		go cp(in, out)
 		err = <-errc
 		if err != nil && err != io.EOF {
